@@ -22,7 +22,9 @@ func (C14) Model() string  { return "shard" }
 func (C14) Parallel() int  { return 8 }
 func (C14) Stateful() bool { return true }
 func (C14) KeepOp(i int, op string) bool {
-	return i == 0
+	// (a history is never cut down to one that asks for listings while the other shard of
+	// the database still exists: with the in-memory index they are database-wide)
+	return i == 0 || op == "sidedel"
 }
 func (C14) RunImpl(c fw.Case) []string { return RunOps(c.Ops) }
 func (C14) Oracle(c fw.Case, out []string) fw.Verdict {
@@ -138,7 +140,12 @@ func c14Case(r *fw.Rand, index string) fw.Case {
 			ops = append(ops, "w "+fmt.Sprintf("%s|host=a|%d|n=i%d", m, c10Base+int64(r.Intn(20))*1000, r.Intn(100)))
 			ops = append(ops, "sidew "+strings.Join(side, ";"))
 			ops = append(ops, "sidelist "+m)
-			ops = append(ops, "sidedel", "w "+strings.Join(fresh, ";"))
+			ops = append(ops, "sidedel")
+			if r.Intn(2) == 0 {
+				// nothing of the other shard's series may stay behind in the listings
+				ops = append(ops, "tagvals "+m+" region", "tagkeys "+m, "meas")
+			}
+			ops = append(ops, "w "+strings.Join(fresh, ";"))
 			ops = append(ops, "series", "seriesby "+m+" host ne c", "seriesby "+m+" region ne x", "seriesby "+m+" host nin c,zz", "tagvals "+m+" region")
 			observe()
 		case 12:
